@@ -113,12 +113,12 @@ def run_unit(name, spec, repo, workdir, tier="quick", seed=0, threads=4, timeout
     vr = js.get("verification-results", {})
     # Which error messages are verification verdicts (as opposed to type/mode errors of the generated file)?
     VERDICT = ("assertion failed", "postcondition not satisfied", "precondition not satisfied", "possible arithmetic underflow/overflow",
-               "invariant not satisfied", "expression simplifies to false", "Resource limit", "decreases not satisfied",
+               "invariant not satisfied", "expression simplifies to", "evaluates to false", "Resource limit", "decreases not satisfied",
                "possible division by zero", "possible bit shift", "index out of bounds", "possible overflow", "loop invariant",
                "could not prove termination", "recommendation not met", "failed to satisfy", "precondition of")
     errs = [ERR_RE.match(l).group(1) for l in p.stderr.split("\n") if ERR_RE.match(l) and not ERR_RE.match(l).group(1).startswith("aborting")]
     nonverdict = [e for e in errs if not any(v in e for v in VERDICT)]
-    compute_fail = any("expression simplifies to false" in e for e in errs)
+    compute_fail = any("expression simplifies to" in e for e in errs)
     if nonverdict or (("verified" not in vr) and not errs) or (vr.get("encountered-error") and not errs):
         res["reason"] = "generated file rejected before verification (type/mode error): " + (nonverdict[0] if nonverdict else "no verdict")
         res["stderr_tail"] = p.stderr[-1500:]
